@@ -10,7 +10,7 @@ from sa.effects import accesses, class_accesses
 from sa.selftest import Mutant, Silent
 from sa.source import methods
 from sa.props._lib_b import (MiniBudget, MiniEval, MiniRaise, Unsupported, check_delayed_call, intra_class_calls, public_api_effects, lin_cmp, lin_cmp_text, lin_eq, linform,
-                              model_class, swallowing_predicate)
+                              model_class, resolve_locals, swallowing_predicate)
 
 PROPERTY = "C08"
 BASE = "internet/base.py"
@@ -264,6 +264,7 @@ def _check_call_later(ctx, mod, cls, sift):
     for k in c.keywords:
         if k.arg:
             bound[k.arg] = k.value
+    bound = {k: resolve_locals(f, v) for k, v in bound.items()}    # named temporaries
     prm = [a.arg for a in f.args.args][1:]
     ctx.need(len(prm) >= 2 and f.args.vararg and f.args.kwarg, "callLater(self, delay, callable, *args, **kw)")
     t = linform(bound.get("time")) if bound.get("time") is not None else None
@@ -387,7 +388,7 @@ def _check_insert(ctx, mod, cls):
         if isinstance(loop.iter, ast.Name):
             # iterating a captured alias: clearing is fine once the alias holds the list, but not inside the loop
             al = [n for n in g.ids_of(pre_alias[loop.iter.id])]
-            inside = g.path([r], [head], strict=True) is not None
+            inside = g.path([r], [head], strict=True) is not None and g.path([head], [r], strict=True) is not None   # on the loop's cycle
             before = g.path([g.entry], [r], avoid=al) is not None and r not in al
         else:
             inside = g.path([r], [head], strict=True) is not None
@@ -447,6 +448,8 @@ def _check_run(ctx, mod, cls, Elem):
               "`now - head.time >= 0`: a call due exactly now is postponed, or calls are taken in an order that is not the heap key's")
     # ---- the call-out
     outs = g.find(lambda x: isinstance(x, ast.Call) and isinstance(x.func, ast.Attribute) and x.func.attr == "func")
+    if not outs and g.find(lambda x: isinstance(x, ast.Call) and (call_name(x) or "").startswith("self.") and any(src(a) == var for a in x.args)):
+        ctx.need(False, "the call-out `call.func(*call.args, **call.kw)` inside runUntilCurrent (it seems to live in a helper: not followed)")
     ctx.check(len(outs) == 1, "run/calls-once", q, f"{len(outs)} call-outs `X.func(...)` in runUntilCurrent (exactly one expected)")
     dec_ok = [d for d in _dec_sites(g) if isinstance(g.node(d).ast.op, ast.Sub) and src(g.node(d).ast.value) == "1"
               and _cancelled_guard(g, d, var) is True and g.dominates(pop, d)]
